@@ -58,6 +58,8 @@ func main() {
 	customCampaign(o, r, m)
 	convCampaign(o, r, m)
 	storageCampaign(o, r)
+	multiCampaign(o, r, m)
+	wireCampaign(o, r)
 	concurrentCampaign(o, r)
 
 	r.Finish()
@@ -198,6 +200,19 @@ type rule struct {
 
 func (ru rule) text(ver int) string {
 	tag := fmt.Sprintf("denyallow=v%d.invalid", ver)
+	if _, err := netip.ParseAddr(ru.dom); err == nil {
+		// Rules for addresses (answers of responses).  The engine does not
+		// apply $denyallow rules to addresses, so these carry no version tag
+		// and are judged by the uncached twin only.
+		switch ru.kind {
+		case "A":
+			return "@@||" + ru.dom + "^"
+		case "T":
+			return "||" + ru.dom + "^$dnstype=A"
+		default:
+			return "||" + ru.dom + "^"
+		}
+	}
 	switch ru.kind {
 	case "B":
 		return "||" + ru.dom + "^$" + tag
@@ -205,6 +220,9 @@ func (ru rule) text(ver int) string {
 		return "@@||" + ru.dom + "^$" + tag
 	case "H":
 		return fmt.Sprintf("10.0.%d.%d %s", ver/256, ver%256, ru.dom)
+	case "G":
+		// An IPv6 hosts-file rule (oracle-only campaigns).
+		return fmt.Sprintf("2001:db8::%d %s", ver, ru.dom)
 	case "C":
 		return "||" + ru.dom + "^$client=" + ru.ip + "," + tag
 	case "T":
